@@ -300,6 +300,12 @@ def run_check(prop, tier, verif_seed, n_runs=None, workers=None, wall_cap=None, 
     # ---- violations: minimise one per distinct signature (at most 3), replay in fresh interpreter
     reported = []
     seen = set()
+    if os.environ.get('VERIF_LIST_SIGS'):       # triage aid: list every violation signature, no minimisation
+        cnt = Counter(v['signature'] for _, v in viol)
+        for sg, n in sorted(cnt.items()):
+            ex = [v['message'] for _, v in viol if v['signature'] == sg][0]
+            print(f'SIG {n:5d} {sg}\n      {ex[:300]}')
+        viol = []
     for o, v in viol:
         if v['signature'] in seen:
             continue
